@@ -44,6 +44,9 @@ def call_builtin(E, fv, args, kwargs, st, node):
         w = s.ghost.get("_warnings", ())
         cls = args[1] if len(args) > 1 else kwargs.get("category")
         s.ghost["_warnings"] = tuple(w) + ((E.exc_name(cls) if cls is not None else "UserWarning"),)
+        # ... and WHEN: how many recorded calls of external collaborators (transfers, sends) came before it
+        n_before = len(s.trace.items) if isinstance(s.trace, ListV) else -1
+        s.ghost["_warnings_at"] = tuple(s.ghost.get("_warnings_at", ())) + (n_before,)
         return [(s, NONE)]
     if mod == "random" or getattr(obj, "__self__", None).__class__.__name__ == "Random":
         return call_random(E, obj.__name__, args, kwargs, st, node)
@@ -165,6 +168,8 @@ def call_speclib(E, name, args, kwargs, st, node):
         return [(st, b_and(*cs) if cs else True)]
     if name == "warnings_of":
         return [(st, tuple(st.ghost.get("_warnings", ())))]
+    if name == "warnings_at":
+        return [(st, tuple(st.ghost.get("_warnings_at", ())))]
     if name == "real":
         return [(st, to_real_term(args[0]))]
     if name == "trunc":
@@ -436,8 +441,11 @@ def _bi_sorted(E, args, kwargs, st, node):
     items = E.static_items(args[0])
     if items is None:
         raise EngineError("sorted over a sequence of symbolic length")
-    if all(not is_z3(x) and not isinstance(x, (tuple, ListV)) for x in items) and "key" not in kwargs:
-        return [(st, ListV(sorted(items, reverse=bool(kwargs.get("reverse", False)))))]
+    if all(isinstance(x, (int, float, str, bytes)) for x in items) and "key" not in kwargs:
+        try:
+            return [(st, ListV(sorted(items, reverse=bool(kwargs.get("reverse", False)))))]
+        except TypeError:
+            raise EngineError("sorted() of values of different kinds")
     if len(items) > 4:
         raise EngineError("sorted() over more than 4 symbolic items not modelled here")
     # symbolic keys over a short static list: fork over the permutations that a stable sort can
